@@ -357,3 +357,23 @@ def t_group_roles(world):
 _t_gr = tasks
 def tasks(tier):
     return _t_gr(tier) + [('group_roles', t_group_roles)]
+
+
+# ---------------------------------------------------------------- C12.e: a forced deleverage is bracketed like a liquidation and cannot leave the account less healthy (shared with C10.a-e: same code, deleverage discriminators)
+def _renamed(task, frm, to):
+    def t(world):
+        obs = task(world)
+        for o in obs:
+            if o.oid.startswith(frm): o.oid = to + o.oid[len(frm):]
+            for c in o.cex:
+                if c.get('ob', '').startswith(frm): c['ob'] = to + c['ob'][len(frm):]
+        return obs
+    return t
+
+
+_t_c12e = tasks
+def tasks(tier):
+    import specs.C10 as C10
+    shared = [('bracket_first', C10.mk_first(tier)), ('bracket_last', C10.mk_last(tier)), ('bracket_exclusive', C10.mk_excl(tier)), ('bracket_wiring', C10.t_wiring), ('bracket_start_end', C10.t_start_end),
+              ('bracket_start_deleverage', C10.mk_bracket('start_deleverage')), ('bracket_end_deleverage', C10.mk_bracket('end_deleverage'))]
+    return _t_c12e(tier) + [(n, _renamed(t, 'C10.', 'C12.e.')) for n, t in shared]
